@@ -66,6 +66,8 @@ type frame struct {
 	callbacks   map[string]*CallbackSpec
 	ghostVisits bool
 	skipWrap    bool
+	curBlock    *ssa.BasicBlock
+	loopMods    map[*Loop]*loopMod
 	iterMap     map[ssa.Value]*iterState
 }
 
@@ -95,7 +97,7 @@ func (fr *frame) rootInputs() []string {
 	return f.inputs
 }
 
-func (fr *frame) frameCheck(kind, ref string, st *state, pos string) {
+func (fr *frame) frameCheck(kind, ref string, st *state, pos string, alts0 ...string) {
 	if fr.inline {
 		// an inlined pure callee may only write fresh memory; checked in its own unit
 		return
@@ -104,10 +106,31 @@ func (fr *frame) frameCheck(kind, ref string, st *state, pos string) {
 		return
 	}
 	alts := []string{fmt.Sprintf("(>= %s %s)", ref, fr.next0)}
+	alts = append(alts, alts0...)
 	for _, m := range fr.modRefs {
 		alts = append(alts, fmt.Sprintf("(= %s %s)", ref, m))
 	}
 	fr.obligeHere(kind, "", st, or(alts...), pos)
+	// enclosing loops with a "modifies" clause: writes stay inside the declared set (or fresh memory)
+	if fr.curBlock != nil {
+		for _, l := range fr.loops {
+			lm := fr.loopMods[l]
+			if lm == nil || !l.Blocks[fr.curBlock] {
+				continue
+			}
+			la := []string{fmt.Sprintf("(>= %s %s)", ref, lm.next)}
+			la = append(la, alts0...)
+			for _, m := range lm.refs {
+				la = append(la, fmt.Sprintf("(= %s %s)", ref, m))
+			}
+			fr.obligeHere("frame.loop", fmt.Sprintf("loop%d", l.Ordinal), st, or(la...), pos)
+		}
+	}
+}
+
+type loopMod struct {
+	refs []string
+	next string
 }
 
 // ---- CFG order ------------------------------------------------------------------------------------
@@ -234,6 +257,28 @@ func (fr *frame) mergeEdges(b *ssa.BasicBlock, edges []edge) *state {
 		k := k
 		s := fr.mergeTerm(k, vc.heapNames[k], edges, func(s *state) string { return vc.heapGetQuiet(s, k) })
 		st.heap[k] = s
+		if ks2, vs2, isDom, isMap := vc.mapSortsOf(k); isMap && len(vc.capStack) == 0 {
+			same := true
+			for _, e := range edges {
+				if vc.heapGetQuiet(e.st, k) != s {
+					same = false
+				}
+			}
+			if !same {
+				f := func(h string) string {
+					if isDom {
+						return vc.mhas(ks2, h, "m", "k")
+					}
+					return vc.mval(ks2, vs2, h, "m", "k")
+				}
+				term := f(vc.heapGetQuiet(edges[len(edges)-1].st, k))
+				for i := len(edges) - 2; i >= 0; i-- {
+					term = ite(edges[i].reach, f(vc.heapGetQuiet(edges[i].st, k)), term)
+				}
+				am := f(s)
+				vc.emit(fmt.Sprintf("(assert (forall ((m Int) (k %s)) (! (= %s %s) :pattern (%s))))", ks2, am, term, am))
+			}
+		}
 		if es, isArr := vc.elemSortOfArr(k); isArr && len(vc.capStack) == 0 {
 			same := true
 			for _, e := range edges {
@@ -270,7 +315,7 @@ func (fr *frame) mergeTerm(base string, srt Sort, edges []edge, get func(*state)
 	for i := len(edges) - 2; i >= 0; i-- {
 		term = ite(edges[i].reach, get(edges[i].st), term)
 	}
-	if strings.HasPrefix(base, "Arr_") && len(fr.vc.capStack) == 0 {
+	if (strings.HasPrefix(base, "Arr_") || strings.HasPrefix(base, "Dom_") || strings.HasPrefix(base, "Val_")) && len(fr.vc.capStack) == 0 {
 		n := fr.vc.fresh(base)
 		fr.vc.emit(fmt.Sprintf("(declare-const %s %s)", n, srt))
 		fr.vc.emit(fmt.Sprintf("(assert (= %s %s))", n, term))
@@ -311,6 +356,7 @@ func (fr *frame) run(st0 *state) {
 			continue
 		}
 		terminated := false
+		fr.curBlock = b
 		for _, in := range b.Instrs {
 			if _, ok := in.(*ssa.Phi); ok {
 				continue
